@@ -143,7 +143,13 @@ call_function(ostream &out, int indent_level, bool convert_result,
 
     _parameters[0]._remap->pass_parameter(cast_expr, container);
 
-    if (!convert_result) {
+    if (_void_return) {
+      // The result type cannot be wrapped, so the cast has been declared to
+      // return nothing.  There is no value to pass on.
+      InterfaceMaker::indent(out, indent_level)
+        << cast_expr.str() << ";\n";
+
+    } else if (!convert_result) {
       return_expr = cast_expr.str();
     } else {
       string new_str =
